@@ -54,7 +54,14 @@ def run(rep, tier):
                'NOT covered: write_all / write_one / next / collect loops and the futures::Stream adapter (compose the verified single operations); MAX_LENGTH clamp (needs 2^28 items)',
                'composition argument: registration/unregistration/delivery of the waitable is C18; this property adds the per-operation contracts',
                'the in-crate obligations use a mock StreamOps whose lower / lift / dealloc_lists only count calls; what the GENERATED hooks do (and that a payload whose lowering allocates has a dealloc_lists hook at all) is decided on the real generator\'s output for one probe world (payload.* obligations, heap ledger as in C06)')
-    kani.run_harnesses(rep, rc.CRATE, harnesses(tier), rc.FEATURES, rc.TARGET, timeout_each=(1800 if tier == 'thorough' else 400), harness_file='/verif/harness/c19.rs', jobs=(6 if tier == 'thorough' else 10))
+    quick = harnesses('quick')
+    kani.run_harnesses(rep, rc.CRATE, quick, rc.FEATURES, rc.TARGET, timeout_each=400, harness_file='/verif/harness/c19.rs', jobs=10)
+    if tier == 'thorough':
+        # the thorough-only read harnesses need up to 25 GB of CBMC memory each (measured): two at a time on a 62 GB machine,
+        # after the quick set has finished (six at a time was killed by the kernel once, which shows up as undecided, exit 2)
+        names = {h.name for h in quick}
+        extra = [h for h in harnesses('thorough') if h.name not in names]
+        kani.run_harnesses(rep, rc.CRATE, extra, rc.FEATURES, rc.TARGET, timeout_each=2400, harness_file='/verif/harness/c19.rs', jobs=2, canary_id='canary.kani.thorough')
     rep.functions.append(S + ', ' + A + ' (real code, driven in place by /verif/harness/c19.rs)')
     # the generated side: the payload vtables the real Rust generator emits (which hooks exist, and what they free)
     GP = 'generated StreamVtable<T> for kani/rustgen_strm/probe.wit (crates/rust/src/interface.rs generate_payload: lower / lift / dealloc_lists / layout) - '
